@@ -341,6 +341,18 @@ func c02Setters(e *core.Env) {
 			e.Violation("setter", "reparse-failed", "after %s the serialisation does not parse: %v", step, err)
 			return false
 		}
+		// "its media type never contradicts the one the body declares": after an edit too
+		var declared struct {
+			MediaType string `json:"mediaType"`
+		}
+		if json.Unmarshal(mj, &declared) == nil && declared.MediaType != "" && declared.MediaType != d.MediaType {
+			e.Violation("setter", "media-type-contradicts-body-after-edit", "after %s the descriptor says %s, the serialisation that will be pushed declares %s", step, d.MediaType, declared.MediaType)
+			return false
+		}
+		if back.GetDescriptor().MediaType != d.MediaType {
+			e.Violation("setter", "media-type-not-roundtrip", "after %s the descriptor says %s, the serialisation parses back as %s", step, d.MediaType, back.GetDescriptor().MediaType)
+			return false
+		}
 		if a, ok := m.(manifest.Annotator); ok {
 			x, _ := a.GetAnnotations()
 			y, _ := back.(manifest.Annotator).GetAnnotations()
@@ -478,9 +490,26 @@ func c02Setters(e *core.Env) {
 			switch o := m.GetOrig().(type) {
 			case v1.Manifest:
 				o.Annotations = map[string]string{"replaced": strconv.Itoa(i)}
+				// the structure handed in may lack the media type (legal in OCI 1.0) or carry one left over from a conversion
+				switch e.Choose("gen", 4, "origMediaType") {
+				case 2:
+					o.MediaType = ""
+					e.Probe("setorig-without-or-with-foreign-media-type")
+				case 3:
+					o.MediaType = gen.MTDockerMan
+					e.Probe("setorig-without-or-with-foreign-media-type")
+				}
 				serr = m.SetOrig(o)
 			case v1.Index:
 				o.Annotations = map[string]string{"replaced": strconv.Itoa(i)}
+				switch e.Choose("gen", 4, "origMediaType") {
+				case 2:
+					o.MediaType = ""
+					e.Probe("setorig-without-or-with-foreign-media-type")
+				case 3:
+					o.MediaType = gen.MTDockerList
+					e.Probe("setorig-without-or-with-foreign-media-type")
+				}
 				serr = m.SetOrig(o)
 			default:
 				serr = m.SetOrig(m.GetOrig())
